@@ -195,7 +195,10 @@ class Check(FormulaCheck):
         rnd = self.rng(spec)
         objs = self.objs
         XL = hx.errors().XLError
-        allv = {'number': [0, 1, -2.5, 10 ** 12, 1e-9, -7, 3.0, -0.0, 5e-324, 1e308, 2 ** 80, -(10 ** 30)],
+        import enum
+        Colour = enum.IntEnum('Colour', 'RED GREEN')
+        allv = {'number': [0, 1, -2.5, 10 ** 12, 1e-9, -7, 3.0, -0.0, 5e-324, 1e308, 2 ** 80, -(10 ** 30),
+                           Colour.GREEN, type('Money', (float,), {})(2.5), type('Count', (int,), {})(7), type('Money', (float,), {})(0.0)],
                 'text': ['', 'a', '1', 'TRUE', '#N/A', ' ', 'FALSE', '0', '\U00020000', type('Label', (str,), {})('x'), '1/0', 'NULL'], 'logical': [True, False],
                 'blank': [None], 'error': [objs[c] for c in CODES9] + [XL('#N/A'), XL('#VALUE!'), XL('#CUSTOM!'), type('HostXL', (XL,), {})('#REF!')]}
         for _ in range(spec['n']):
